@@ -46,6 +46,8 @@ func (in *Interp) unop(g *G, fr *Frame, ins *ssa.UnOp) Value {
 		} else if ch.closed {
 			in.raceAcquire(ch)
 			v = zero(ins.X.Type().Underlying().(*types.Chan).Elem())
+		} else if p := in.chanPartner(g, ch, true); ch.cap == 0 && p != nil {
+			v, ok = in.takeFrom(ch, p), true
 		} else {
 			fr.pc--
 			g.block = "chan recv"
@@ -64,6 +66,11 @@ var cmpOps = map[token.Token]bool{token.EQL: true, token.NEQ: true, token.LSS: t
 
 func (in *Interp) binop(g *G, op token.Token, t types.Type, x, y Value) Value {
 	c := in.Ctx
+	if x.K == KOpaque && y.K == KOpaque {
+		if v, ok := in.floatBinop(op, x, y); ok {
+			return v
+		}
+	}
 	switch x.K {
 	case KInt:
 		_, signed, _ := intInfo(t)
@@ -491,6 +498,9 @@ func (in *Interp) convert(from, to types.Type, x Value) Value {
 		return x
 	}
 	if b, ok := tu.(*types.Basic); ok && b.Info()&types.IsFloat != 0 {
+		if fw, fsigned, ok := intInfo(fu); ok && b.Kind() == types.Float64 {
+			return in.floatOfInt(x, fw, fsigned)
+		}
 		return Value{K: KOpaque, R: poison("float")}
 	}
 	unsupported("convert %s -> %s", from, to)
